@@ -2,7 +2,7 @@
 
 MODULE = "DtailModel.Props.C02"
 # scripts with real waits: a disagreement counts only if it reproduces when re-run alone (flake policy, DESIGN 2.3)
-TIMED_OPS = ("c02.session", "c02.e2e", "c02.many")
+TIMED_OPS = ("c02.session", "c02.e2e", "c02.many", "c02.eofstall")
 GROUPS = ["C02"]
 BINS = True
 LOGGER = "none"
@@ -34,6 +34,12 @@ def gen(rng, budget, tier):
     if tier == "thorough":
         yield "c02.many ssh 400 6000 2500"
         yield "c02.many serverless 1200 9000 2500"
+    # the consumer stalls for 7 s exactly at the end of the file (pipe full, one / two / three lines still to come)
+    yield "c02.eofstall 1024 1 7000"
+    yield "c02.eofstall 1024 3 7000"
+    if tier == "thorough":
+        yield "c02.eofstall 512 2 12000"
+        yield "c02.eofstall 4096 1 7000"
     sizes_pool = [0, 1, 5, 99, 100, 101, 250]
     for i in range(budget):
         if i % 9 == 8:
